@@ -396,6 +396,7 @@ def case_estimator(ctx, rng, idx):
                             np.array(Yin), keep, detail=tag)
     if not okc:
         return
+    ctx.hold("estimator-exact", "estimate_channel_freq_domain", got)
     got = np.asarray(got)
     ctx.ev("estimator-exact", got.shape == want.shape, cls=variant + ":shape",
            detail={**tag, "got": got.shape, "want": want.shape})
